@@ -53,6 +53,35 @@ type c17Case struct {
 	// server-streaming (bit 1), or neither (a unary RPC issued through the streaming API); -1 = bidi as usual.
 	// Whatever it says, it is a stream creation and goes through every stream interceptor.
 	DescFlags int `json:",omitempty"`
+	// OtherFirst: before the judged call, a call of the other kind (unary before a stream, a stream before a unary
+	// call) goes through the same wrapper: what a layer did for one kind of call decides nothing about the other
+	OtherFirst bool `json:",omitempty"`
+	// ByValue (fake base): the base channel is a struct used by value that has a func field (not comparable, not
+	// hashable), as user-defined channels may be
+	ByValue bool `json:",omitempty"`
+}
+
+// c17Same: identity of two channels (interface values of non-comparable dynamic types cannot be compared with ==).
+func c17Same(a, b grpc.ClientConnInterface) bool {
+	av, ok1 := a.(c17FakeVal)
+	bv, ok2 := b.(c17FakeVal)
+	if ok1 || ok2 {
+		return ok1 && ok2 && av.inner == bv.inner
+	}
+	return a == b
+}
+
+// c17FakeVal is c17Fake as a by-value, non-comparable type.
+type c17FakeVal struct {
+	inner *c17Fake
+	hook  func()
+}
+
+func (f c17FakeVal) Invoke(ctx context.Context, method string, req, resp interface{}, opts ...grpc.CallOption) error {
+	return f.inner.Invoke(ctx, method, req, resp, opts...)
+}
+func (f c17FakeVal) NewStream(ctx context.Context, desc *grpc.StreamDesc, method string, opts ...grpc.CallOption) (grpc.ClientStream, error) {
+	return f.inner.NewStream(ctx, desc, method, opts...)
 }
 
 func c17Desc(c *c17Case) *grpc.StreamDesc {
@@ -261,6 +290,10 @@ func propC17Chain(c c17Case) *Outcome {
 	switch c.Base {
 	case "fake":
 		base = &c17Fake{rec: rec}
+		if c.ByValue {
+			o.class("base-channel-is-a-non-comparable-value")
+			base = c17FakeVal{inner: &c17Fake{rec: rec}, hook: func() {}}
+		}
 	default:
 		name := map[string]string{"inproc": cInproc, "http": cHTTP, "grpc": cGRPC}[c.Base]
 		car := newCarrier(name, newServiceDesc(), svc, carrierOpts{})
@@ -333,7 +366,7 @@ func propC17Chain(c c17Case) *Outcome {
 			ch = grpchan.InterceptClientConn(prev, mkUnary(id, l.Unary), mkStream(id, l.Stream))
 		}
 		if l.Unary == "" && l.Stream == "" {
-			if ch != prev {
+			if !c17Same(ch, prev) {
 				return o.failf("InterceptClientConn(ch, nil, nil) returned a different channel")
 			}
 			continue
@@ -343,7 +376,7 @@ func propC17Chain(c c17Case) *Outcome {
 		if !ok {
 			return o.failf("wrapped channel does not implement WrappedClientConn")
 		}
-		if w.Unwrap() != prev {
+		if !c17Same(w.Unwrap(), prev) {
 			return o.failf("Unwrap() does not return the wrapped channel at layer %d", i)
 		}
 	}
@@ -434,6 +467,30 @@ func propC17Chain(c c17Case) *Outcome {
 	var err error
 	var out pb.Message
 	var gotStream grpc.ClientStream
+	if c.OtherFirst {
+		o.class("a-call-of-the-other-kind-first")
+		if s := guard("preceding call of the other kind", func() {
+			ctx, cancel := context.WithCancel(context.Background())
+			defer cancel()
+			if c.Stream {
+				ch.Invoke(ctx, mUnary, &pb.Message{Count: 5}, new(pb.Message))
+			} else if cs, e := ch.NewStream(ctx, streamDescOf(kBidi), mBidi); e == nil && c.Base != "fake" {
+				cs.CloseSend()
+				for cs.RecvMsg(new(pb.Message)) == nil {
+				}
+			}
+		}); s != "" {
+			return o.failf("stall: %s", s)
+		}
+		// only the judged call is compared with the model
+		seenCtx.Store(nil)
+		rec.mu.Lock()
+		rec.ev, rec.base = nil, nil
+		rec.mu.Unlock()
+		hMu.Lock()
+		hSeen = nil
+		hMu.Unlock()
+	}
 	stall := guard("call", func() {
 		ctx0, cancel := context.WithCancel(context.Background())
 		defer cancel()
@@ -563,6 +620,8 @@ func genC17(t *rapid.T) c17Case {
 	c.DoneCtx = c.Base == "fake" && rapid.IntRange(0, 3).Draw(t, "donectx") == 0
 	c.Follow = rapid.IntRange(0, 3).Draw(t, "follow") == 0
 	c.DescFlags = rapid.SampledFrom([]int{-1, -1, 0, 0, 1, 2, 3}).Draw(t, "descflags")
+	c.OtherFirst = rapid.IntRange(0, 2).Draw(t, "otherfirst") == 0
+	c.ByValue = c.Base == "fake" && rapid.IntRange(0, 2).Draw(t, "byvalue") == 0
 	ub := []string{"", "pass", "pass", "pass", "sc-err", "sc-ctxerr", "sc-ok", "add-opt", "drop-opts", "rw-method", "twice", "rw-req"}
 	sb := []string{"", "pass", "pass", "pass", "sc-err", "sc-ctxerr", "add-opt", "drop-opts", "rw-method"}
 	for i := 0; i < n; i++ {
